@@ -183,7 +183,11 @@ def run(ctx):
                 "common / constant / random) and re-encodes those with the 2-D shift_common, every sub-cube block compared; "
                 "a third stream uses ordinary decimal weights (0.9, 1.2, 1.3 ...) with a never-occurring category in every dimension (tolerance "
                 "stream: missing cells exactly, values within 1e-9 of the grand total, judged by the exact oracle and against the original "
-                "encoding, not in Coq); a case = one (re-encoded cube or block, call) literal; non-trivial when N > 0 and the new common differs "
+                "encoding, not in Coq); a scale stream (N in 30..120 rows, 2-3 lopsided dimensions - a dominant category of 60-90 % of the rows, "
+                "rare categories of 1-3 rows - dyadic or decimal weights) re-encodes every dimension to every value incl. the rare and an "
+                "absent one, so the dominant category becomes a stored entry; those calls go to Coq only while the literal stays small "
+                "(theorems are size-independent), else they are judged by the exact oracle and against the original encoding only and "
+                "counted as oracle_only_calls; a case = one (re-encoded cube or block, call) literal; non-trivial when N > 0 and the new common differs "
                 "from the stored one")
     ctx.trusted = list(core.STD_TRUSTED) + [
         "as C03 (NumPy primitives modelled); IIndex/OpsA.shift_common is the model of iindex.shift_common (tied by property C06)",
@@ -207,7 +211,7 @@ def run(ctx):
         dims2 = list(dims)
         dims2[d] = newdim
         n0 = len(S.lits)
-        rc, _ = S.call(c2, fmt, dims=dims2, which="c", tag=tag)
+        rc, _ = S.call(c2, fmt, dims=dims2, which="c", tag=tag, to_coq=ca.literal_is_small(c))
         if len(S.lits) > n0 and c["N"] > 0 and commons[d] != c["commons"][d]:
             ctx.nontrivial.add(S.lits[-1])
         if "exc" in rc:
@@ -224,7 +228,7 @@ def run(ctx):
         fmt = pick_fmt(rng, c)
         c = dict(c, shape_mode="explicit")
         dims = ca.build_dims(catii, c)
-        base, _ = S.call(c, fmt, dims=dims, which="c", tag="original")
+        base, _ = S.call(c, fmt, dims=dims, which="c", tag="original", to_coq=ca.literal_is_small(c))
         S.count("kind:" + c["kind"])
         S.count("dims:%d" % len(c["exts"]))
         for d, e in enumerate(c["exts"]):
@@ -314,12 +318,16 @@ def run(ctx):
     for i in range(n_dec):
         one(ca.decimal_case(rng, kind=rng.choice(["mean", "mean", "mean", "valid_count", "sum", "count"]), nd=rng.choice([1, 1, 2, 2, 3]), absent=True))
     n_dec_calls = S.calls - calls0
+    n_scale = 900 if thorough else 70
+    for i in range(n_scale):
+        one(ca.scale_case(rng, decimal=(i % 3 == 2)))
+    ctx.coverage.update({"scale_cubes": n_scale, "oracle_only_calls": S.oracle_only})
     ctx.coverage.update({"decimal_weight_cubes": n_dec, "decimal_weight_calls_judged_by_oracle": n_dec_calls})
     ctx.coverage.update({"cubes": n_cubes, "re_encodings": n_var, "real_calls": S.calls, "calls_compared_in_coq": len(S.lits),
                          "distribution": dict(sorted(S.dist.items()))})
     if thorough:
         ctx.coverage["exhaustive"] = "every (dimension, v in 0..extent) re-encoding of every generated cube, one dimension at a time"
-    ctx.evaluations = len(S.lits) + n_dec_calls
+    ctx.evaluations = len(S.lits) + S.oracle_only
     res = core.run_cases("c05", ca.PRELUDE, S.lits, ca.CASE_TYPE, ca.CHECK_EXPR, ca.EXPLAIN_EXPR,
                          shard_size=2500 if thorough else 400)
     ca.conclude(ctx, "C05", pr, S, res, THEOREMS, HOW)
